@@ -316,6 +316,11 @@ def family_sos():
             for cn, ac in cons:
                 yield ('sos %s %s %s' % (sn, rn, cn), Model(VS, acons=ac, obj=('max', None, {0: 1.0, 1: 2.0, 2: 1.0}),
                                                           suffixes=[(0, False, 'sosno', so), (0, True, 'ref', rf)]))
+    # members with negative lower bounds (a negative member is as nonzero as a positive one)
+    VN = [(-2.0, 2.0, False, 1.0), (-1.0, 2.0, False, 1.0), (-2.0, 1.0, True, 1.0)]
+    for sn, so in sets[:2]:
+        yield ('sos %s negdom' % sn, Model(VN, acons=[(None, {0: 1.0, 1: 1.0, 2: 1.0}, -1.0, INF)], obj=('max', None, {0: 1.0, 1: -1.0, 2: 1.0}),
+                                           suffixes=[(0, False, 'sosno', so), (0, True, 'ref', refs[0][1])]))
     # .sos/.sosref are the suffixes AMPL itself generates when it linearises a PL term or an `in` domain: the
     # members are weights in [0,1] tied by a convexity row sum = 1 (mp relies on that: "for linearized PL").
     VL = [(0.0, 1.0, False, 0.5), (0.0, 1.0, False, 0.5), (0.0, 1.0, False, 0.5)]
